@@ -61,7 +61,7 @@ def make_table(MC, n, key_vals, prefix="m", with_features=True):
     return Tab(mol, [f"{prefix}{i}" for i in range(n)], {k: list(v) for k, v in (feats or {}).items()})
 
 
-def row_ids(mol):
+def row_ids(mol, allow_null=False):
     """identify every output row by its position tag, its orientation tag and its feature tag; returns (ids or None, reason)"""
     n = len(mol)
     out = []
@@ -80,7 +80,7 @@ def row_ids(mol):
         tp = [tag_of(pos[r, a], f"_p{a}") for a in range(3)]
         tq = [tag_of(quat[r, k], f"_q{c}") for k, c in enumerate("xyzw")]
         tags = set(tp + tq)
-        if "row" in feat.columns:
+        if "row" in feat.columns and not (allow_null and feat["row"][r] is None):
             tags.add(feat["row"][r])
         if len(tags) != 1 or None in tags:
             return None, f"row {r}: position {tp}, orientation {tq}, feature {feat['row'][r] if 'row' in feat.columns else '-'} do not belong to one molecule"
@@ -240,8 +240,8 @@ SINGLE_OPS = [op_subset_slice(slice(1, None)), op_subset_slice(slice(None, 2)), 
               op_concat("append"), op_with_features(), op_drop(), op_copy()]
 
 
-def check_result(rec, label, res, mode, key_prefix, replay):
-    ids, why = row_ids(res.mol)
+def check_result(rec, label, res, mode, key_prefix, replay, allow_null=False):
+    ids, why = row_ids(res.mol, allow_null)
     n = len(res.mol)
     if ids is None:
         ok, det = replay({})
@@ -323,6 +323,93 @@ def _replay_table(cex):
 
 
 # ---------------------------------------------------------------------------------------
+
+
+def replay_mixed(cex):
+    with load.real_modules():
+        return _replay_mixed(cex)
+
+
+def _replay_mixed(cex):
+    """installed library: joining a table with features and a table without: either rejected (receiver unchanged) or a consistent table with nulls for the missing values"""
+    from acryo import Molecules
+
+    bad = []
+    for kind in ("concat", "concat_with", "append"):
+        for featured_first in (True, False):
+            for n_other in (2, 0):
+                a = Molecules(np.arange(9.0).reshape(3, 3), features={"v": [10, 11, 12]} if featured_first else None)
+                b = Molecules(np.arange(3.0 * n_other).reshape(n_other, 3) + 100, features=None if featured_first else {"v": list(range(20, 20 + n_other))})
+                try:
+                    if kind == "concat":
+                        out = Molecules.concat([a, b])
+                    elif kind == "concat_with":
+                        out = a.concat_with(b)
+                    else:
+                        out = a.append(b)
+                except Exception:
+                    if len(a) != 3 or len(a.features) not in (0, 3) or a.rotator.as_quat().shape[0] != 3:
+                        bad.append({"op": kind, "featured_first": featured_first, "rejected-but-receiver-changed": [len(a), len(a.features)]})
+                    continue
+                n = out.pos.shape[0]
+                nf = len(out.features)
+                want = ([10, 11, 12] + [None] * n_other) if featured_first else ([None] * 3 + list(range(20, 20 + n_other)))
+                if n != 3 + n_other or out.rotator.as_quat().shape[0] != n or (nf != n and (nf != 0 or "v" in out.features.columns)):
+                    bad.append({"op": kind, "featured_first": featured_first, "other_rows": n_other, "positions": n, "orientations": int(out.rotator.as_quat().shape[0]), "feature_rows": nf})
+                elif nf == n and "v" in out.features.columns and out.features["v"].to_list() != want:
+                    bad.append({"op": kind, "featured_first": featured_first, "other_rows": n_other, "v": out.features["v"].to_list(), "want": want})
+                elif n_other and not featured_first and kind == "append":
+                    bad.append({"op": kind, "extra-columns-accepted": out.features.columns})
+    return len(bad) > 0, {"n": len(bad), "examples": bad[:4]}
+
+
+def sec_mixed(rec, patches=None):
+    """a table with features joined with a table without features (and vice versa): rejected, or consistent (nulls for the missing values)"""
+    L = _load(patches)
+    MC = L["acryo.molecules.core"]
+    rec.encodes("acryo/molecules/core.py:Molecules.concat", "acryo/molecules/core.py:Molecules.concat_with", "acryo/molecules/core.py:Molecules.append (one side without features)")
+    with L.installed():
+        for kind in ("concat", "concat_with", "append"):
+            for featured_first in (True, False):
+                for n_other in (2, 0):
+                    tag = f"mixed/{kind}[{'featured' if featured_first else 'plain'} (3) + {'plain' if featured_first else 'featured'} ({n_other})]"
+
+                    def run():
+                        t = make_table(MC, 3, [2, 0, 1], with_features=featured_first)
+                        o = make_table(MC, n_other, [5, 6], prefix="o", with_features=not featured_first)
+                        if n_other == 0:
+                            o = Tab(MC.Molecules.empty() if featured_first else MC.Molecules.empty(["a", "g", "row"]), [], {} if featured_first else {"a": [], "g": [], "row": []})
+                        try:
+                            if kind == "concat":
+                                mol = MC.Molecules.concat([t.mol, o.mol])
+                            elif kind == "concat_with":
+                                mol = t.mol.concat_with(o.mol)
+                            else:
+                                mol = t.mol.append(o.mol)
+                        except (ValueError, TypeError, pl.exceptions.PolarsError) as e:
+                            return t, o, None, e
+                        return t, o, mol, None
+
+                    for pth in explore(run, max_paths=20):
+                        if not pth.ok:
+                            rec.fact(f"{tag}/runs", False, key="C12/op-raises", detail={"exc": repr(pth.exc)[:300]}, reproduced=replay_mixed({})[0])
+                            continue
+                        t, o, mol, exc = pth.result
+                        if exc is not None:
+                            ids0, why = row_ids(t.mol)
+                            ok = ids0 == t.ids
+                            rec.fact(f"{tag}/rejected => receiver-unchanged", ok, key="C12/mixed/rejected-but-modified", detail={"exc": repr(exc)[:160], "why": why},
+                                     reproduced=True if ok else replay_mixed({})[0])
+                            continue
+                        if kind == "append" and not featured_first and n_other:
+                            okx, det = replay_mixed({})
+                            rec.fact(f"{tag}/extra-columns-are-rejected", False, key="C12/reject/append-extra-columns", detail={"columns": mol.features.columns, **det}, reproduced=okx)
+                            continue
+                        cols = set(t.feats) | set(o.feats)
+                        fe = {k: t.feats.get(k, [None] * 3) + o.feats.get(k, [None] * n_other) for k in cols}
+                        if len(mol.features.columns) == 0:
+                            fe = {}
+                        check_result(rec, tag, Tab(mol, t.ids + o.ids, fe), "ordered", "C12/mixed", replay_mixed, allow_null=True)
 
 
 def sec_single(rec, n=3, keys=(2, 0, 1), ops=None, patches=None):
@@ -585,7 +672,7 @@ def sec_reject(rec, patches=None):
 
 
 def sections(tier):
-    S = [("symbolic-index", "checks.c12", "sec_symbolic_index", {}), ("groups", "checks.c12", "sec_groups", {}), ("reject", "checks.c12", "sec_reject", {})]
+    S = [("symbolic-index", "checks.c12", "sec_symbolic_index", {}), ("groups", "checks.c12", "sec_groups", {}), ("reject", "checks.c12", "sec_reject", {}), ("mixed-features", "checks.c12", "sec_mixed", {})]
     nops = len(SINGLE_OPS)
     for keys in ([2, 0, 1], [1, 1, 0]) if quick(tier) else ([2, 0, 1], [1, 1, 0], [0, 0, 0], [0, 2, 2]):
         for lo in range(0, nops, 9):
@@ -616,6 +703,8 @@ MUTANTS = [
     ("reject:length-check-removed", "checks.c12", "sec_reject", {}, {_MC: [("            if len(df) != self.pos.shape[0]:\n", "            if False:\n")]}),
     ("reject:append-extra-columns-allowed", "checks.c12", "sec_reject", {}, {_MC: [("            if len(feat.columns) != len(self.features.columns):\n", "            if False:\n")]}),
     ("subset:negative-index-allowed", "checks.c12", "sec_symbolic_index", {}, {_MC: [("            if spec < 0:\n                raise IndexError(\"Negative indexing is not supported.\")\n", "")]}),
+    ("append:revert-featureless-fix (014596f)", "checks.c12", "sec_mixed", {}, {_MC: [("            if len(other_feat.columns) == 0 and other.count() > 0:\n", "            if False:\n")]}),
+    ("append:featureless-receiver-adopts-features (seeded change C12_6)", "checks.c12", "sec_mixed", {}, {_MC: [("        if self.count() == 0:\n            feat = other.features\n        else:\n            other_feat", "        if len(self.features) == 0:\n            feat = other.features\n        else:\n            other_feat")]}),
     ("concat:revert-empty-fix", "checks.c12", "sec_single", {"n": 0, "keys": (), "ops": [20]}, {_MC: [("            all_features = pl.concat(non_empty or features[:1], how=how)", "            all_features = pl.concat(features, how=how)")]}),
 ]
 
@@ -637,6 +726,11 @@ def run(tier, procs=None, only=None):
 
 
 def replay(data):
+    if "/mixed" in data.get("key", "") or "mixed/" in data.get("label", ""):
+        ok, detail = replay_mixed(data.get("cex") or {})
+        print("replay:", detail)
+        print("REPRODUCED" if ok else "not reproduced")
+        return 1 if ok else 0
     ok, detail = replay_table(data.get("cex") or {})
     print("replay:", detail)
     print("REPRODUCED" if ok else "not reproduced")
